@@ -74,6 +74,8 @@ type Op struct {
 	COE          *bool     `json:"coe,omitempty"`           // SetContinueOnErrors on the spec validator / the value for set_coe
 	YAML         bool      `json:"yaml,omitempty"`          // feed the document as YAML-converted bytes
 	Reorder      bool      `json:"reorder,omitempty"`       // feed the document with all object members in reverse order
+	SharedMeta   bool      `json:"shared_meta,omitempty"`   // hand the spec validator the one Swagger meta-schema object of this run (expanded in place by earlier validations, as a caller keeping one schema around would have it) instead of the document's own fresh copy
+	ReuseDoc     bool      `json:"reuse_doc,omitempty"`     // validate the very *loads.Document an earlier operation of this run loaded (same bytes, same variant)
 	OptMode      int       `json:"opt_mode,omitempty"`      // 2: only EnableObjectArrayTypeCheck, 3: only EnableArrayMustHaveItemsCheck
 	SkipSchemata bool      `json:"skip_schemata,omitempty"` // WithSkipSchemataResult(true)
 	Pattern      string    `json:"pattern,omitempty"`
@@ -276,11 +278,14 @@ func (r *faultRegistry) Validates(name, data string) bool {
 
 // Env is what operations of one run share: long-lived validators, document corpus, retained results.
 type Env struct {
-	Shared   []*spec.Schema
-	LL       []*LLValidator
-	Retained []retained // values handed to the caller earlier; re-rendered at the end of the history
-	Keep     bool       // retain returned values
-	LastReg  *faultRegistry
+	Shared    []*spec.Schema
+	LL        []*LLValidator
+	Retained  []retained // values handed to the caller earlier; re-rendered at the end of the history
+	Keep      bool       // retain returned values
+	LastReg   *faultRegistry
+	meta      *spec.Schema               // the run\'s Swagger meta-schema object (operations with SharedMeta)
+	docs      map[string]*loads.Document // documents loaded by operations with ReuseDoc
+	docReuses int
 }
 
 type retained struct {
@@ -479,8 +484,15 @@ func (env *Env) exec(op *Op) Outcome {
 		env.retain(op, func() string { return resultOutcome(r, false).Key() })
 		return resultOutcome(r, false)
 	case KSpec:
-		doc := must(loadDoc(op))
-		sv := validate.NewSpecValidator(doc.Schema(), op.registry(env))
+		doc := must(env.loadDoc(op))
+		meta := doc.Schema()
+		if op.SharedMeta {
+			if env.meta == nil {
+				env.meta = spec.MustLoadSwagger20Schema()
+			}
+			meta = env.meta
+		}
+		sv := validate.NewSpecValidator(meta, op.registry(env))
 		captured := sv.Options.ContinueOnErrors
 		if op.COE != nil {
 			sv.SetContinueOnErrors(*op.COE)
@@ -497,7 +509,7 @@ func (env *Env) exec(op *Op) Outcome {
 		})
 		return o
 	case KSpecOne:
-		doc := must(loadDoc(op))
+		doc := must(env.loadDoc(op))
 		err := validate.Spec(doc, op.registry(env))
 		env.retain(op, func() string { return errOutcome(err).Key() })
 		return errOutcome(err)
@@ -604,6 +616,28 @@ func (env *Env) BuildLL(defs []*LLValidator, ctx *rt.OpCtx) (err error) {
 }
 
 // ---- documents ----
+
+// loadDoc loads the document of op, or hands out the document object an earlier operation of this run loaded from the
+// same bytes ("validating the same document again").
+func (env *Env) loadDoc(op *Op) (*loads.Document, error) {
+	if !op.ReuseDoc {
+		return loadDoc(op)
+	}
+	key := fmt.Sprintf("%v/%v/%s", op.YAML, op.Reorder, op.Doc)
+	if d, ok := env.docs[key]; ok {
+		env.docReuses++
+		return d, nil
+	}
+	d, err := loadDoc(op)
+	if err != nil {
+		return nil, err
+	}
+	if env.docs == nil {
+		env.docs = map[string]*loads.Document{}
+	}
+	env.docs[key] = d
+	return d, nil
+}
 
 func loadDoc(op *Op) (*loads.Document, error) {
 	raw, err := docBytes(op.Doc)
